@@ -57,7 +57,6 @@ ModelScope(line) ==
    LET c == line.c IN
    /\ line.doc = "ok" /\ "skip" \notin DOMAIN line /\ line.route = "ok" /\ c.presence = "present"
    /\ c.shape \in {"int", "int32", "num", "bool", "str", "arrint", "arrstr", "obj", "objk", "multitype", "multitype_str"}
-   /\ ~Has(c.schema, "apSchema")            \* (as built, an additionalProperties schema is applied to declared properties too: F-C05-6)
    /\ (c.cell.in = "path" \/ (c.cell.in = "query" /\ c.cell.style = "form" /\ ~c.decoy))
    /\ line.dec.err \in {"ok", "parse"}
 Fidelity(line) ==
